@@ -31,13 +31,20 @@ Fixpoint imp_of (l : list (nat * nat * option nat)) (dt j : nat) : option nat :=
 (* the client of this tree: predefined names and error tables come from the generated facts *)
 Definition the_client (d : dsc) : client := mk_client predefined_names error_classes error_names d.
 
+(* what the node did with a written array / struct: it validates both against the previous value of the parameter *)
+Inductive wextra :=
+| WArr (prev ve oe : list nat)                   (* elements of the previous value, of the value passed, observed at the driver *)
+| WStruct (prev v o : list (nat * nat)).         (* (member, value) of the previous value, of the value passed, observed at the driver *)
+Definition struct_same (a b : list (nat * nat)) : bool :=
+  Nat.eqb (length a) (length b) && forallb (fun kv => opt_eqb Nat.eqb (struct_get (fst kv) a) (Some (snd kv))) b.
+
 Inductive case :=
 | CMsgs (d : dsc) (imp : list (nat * nat * option nat)) (bh : list (nat * beh)) (ops : list op)
         (o_cache : list (key * entry)) (o_log : list inv) (o_cbs : list (cbname * ckey * list nat))
 | CE2E (exp imp : list (nat * nat * option nat))
-       (writes : list (nat * nat * nat * option nat * option nat * option (list nat * list nat * list nat)))
+       (writes : list (nat * nat * nat * option nat * option nat * option wextra))
            (* datatype, value passed, driver result, observed at the driver, observed in the cache;
-              for a parameter that is an array: elements of the previous value, of the value passed, observed at the driver *)
+              for a parameter that is an array or a struct: previous value, value passed, observed at the driver *)
        (reads : list (nat * nat * option nat))                          (* datatype, driver result, observed in the cache *)
 (* concurrent run (ConcModel.v): description, import table, callbacks registered before the start, the programs of
    the callers, the executed steps of receive thread / transmissions / callers in schedule order, and what the
@@ -94,7 +101,8 @@ Definition check_case (c : case) : bool :=
                         let '(w, c') := e2e_write (imp_of exp dt) (imp_of imp dt) (imp_of exp dt) (imp_of imp dt) v r in
                         match arr with
                         | None => opt_eqb Nat.eqb w o_w
-                        | Some (prev, ve, oe) => list_eqb Nat.eqb (array_validate prev ve) oe
+                        | Some (WArr prev ve oe) => list_eqb Nat.eqb (array_validate prev ve) oe
+                        | Some (WStruct prev v' o) => struct_same (struct_validate prev v') o
                         end && opt_eqb Nat.eqb c' o_c) writes
       && forallb (fun x => let '(dt, r, o_c) := x in
                            opt_eqb Nat.eqb (e2e_read (imp_of exp dt) (imp_of imp dt) r) o_c) reads
